@@ -82,6 +82,7 @@ def compare(res, exp_out, exp_rc, exp_used, exp_files):
     return ''
 
 
+@driver.hang_is_failure(lambda why: ('fail', why, None))
 def check_x(P, inp, files, tier, scratch):
     try:
         I = xcase.interpret(P, inp, files, tier)
@@ -100,6 +101,7 @@ def check_x(P, inp, files, tier, scratch):
     return ('fail' if why else 'ok'), why, I
 
 
+@driver.hang_is_failure(lambda why: ('fail', why))
 def check_tour(items, expected, inp, scratch):
     sp = os.path.join(scratch, 'p.S')
     open(sp, 'w', encoding='latin-1').write(asmgen.render(items))
@@ -130,6 +132,8 @@ def gen_case(rng, stats, extra):
             if verdict == 'undefined':
                 stats.discard(why)
                 return
+            if I is None:
+                raise hyp.Failure(xcase.case_dict(P, inp, files, {'tier': tier}), why)      # a tool did not finish
             src = xlang.p_prog(P)
             key = (src, inp)
             nt = (I.pos > 0 or any(len(v) for v in I.out.values())) and I.steps >= 20
